@@ -1048,7 +1048,7 @@ public:
 	HFSM2_CONSTEXPR(14)	double	float64()								noexcept	{ return uniform(uint64());					}
 	HFSM2_CONSTEXPR(14)	float	float32()								noexcept	{ return uniform(uint32());					}
 
-	HFSM2_CONSTEXPR(14)	uint64_t uint64()								noexcept	{ return widen(uint32(), uint32());			}
+	HFSM2_CONSTEXPR(14)	uint64_t uint64()								noexcept	{ const uint32_t high = uint32(); return widen(high, uint32());	}
 	HFSM2_CONSTEXPR(14)	uint32_t uint32()								noexcept;
 
 	HFSM2_CONSTEXPR(14)	float next()									noexcept	{ return float32();							}
@@ -1092,7 +1092,7 @@ public:
 	HFSM2_CONSTEXPR(14)	double	float64()								noexcept	{ return uniform(uint64());			}
 	HFSM2_CONSTEXPR(14)	float	float32()								noexcept	{ return uniform(uint32());			}
 
-	HFSM2_CONSTEXPR(14)	uint64_t uint64()								noexcept	{ return widen(uint32(), uint32());	}
+	HFSM2_CONSTEXPR(14)	uint64_t uint64()								noexcept	{ const uint32_t high = uint32(); return widen(high, uint32());	}
 	HFSM2_CONSTEXPR(14)	uint32_t uint32()								noexcept;
 
 	HFSM2_CONSTEXPR(14)	void jump()										noexcept;
